@@ -4,6 +4,7 @@ CONSTANTS
   MaxCalls = 7
   Lattice = "L4"
   Protos = {"seg", "pt"}
+  SampleMod = 1
 INIT Init
 NEXT Next
 CONSTRAINT Emit
